@@ -356,6 +356,10 @@ def payload(rng, sids, hidden=False):
         if rng.random() < 0.3:
             it = encode(rng, it)
         items.append(it)
+    if items and not hidden and rng.random() < 0.15:
+        # the SAME document or named wrapper embedded twice (a shared policy attached in two places): two positions, two documents --
+        # "exactly once" is per position, equal content is not a duplicate (seeded change C13-r8m1 collapsed equal named wrappers)
+        items.append(copy.deepcopy(rng.choice(items)))
     for _ in range(rng.choice([0, 0, 1, 2])):
         items.append(lookalike(rng, sids))
     if hidden:
